@@ -256,6 +256,19 @@ Definition table_ops : list (string * (list arg -> out)) :=
        | [AA s1 e1; AA s2 e2] => out_res obool (arr_eq Z.eqb (mka s1 e1) (mka s2 e2)) | _ => OBad end)
   ; ("cmp", fun args => match args with
        | [AA s1 e1; AA s2 e2] => out_res ocmp (arr_cmp zcmp (mka s1 e1) (mka s2 e2)) | _ => OBad end)
+  (* the four ordering operators, each on its own (2 = the operator panicked: differently shaped operands are
+     rejected by every one of them) *)
+  ; ("cmpops", fun args => match args with
+       | [AA s1 e1; AA s2 e2] =>
+         match arr_cmp zcmp (mka s1 e1) (mka s2 e2) with
+         | Ok c => let b (x : bool) := if x then 1%Z else 0%Z in
+                   OL [ b (match c with Some Lt => true | _ => false end);
+                        b (match c with Some Lt | Some Eq => true | _ => false end);
+                        b (match c with Some Gt => true | _ => false end);
+                        b (match c with Some Gt | Some Eq => true | _ => false end) ]
+         | _ => OL [2; 2; 2; 2]%Z
+         end
+       | _ => OBad end)
   ; ("pairs", fun args => match args with
        | [AA s1 e1; AA s2 e2] =>
          if nat_list_eqb (nats s1) (nats s2) then OPArr (nats s1) (combine e1 e2) else OPanic
